@@ -13,9 +13,11 @@ KIND_SQL = {
     'set': "SET statement_timeout TO 1234",
     'copyin': 'COPY t FROM STDIN',
     'big': 'SELECT 1 /*v:rows=4,size=3000*/',
+    'slow': 'SELECT 1 /*v:sleep=1500*/',
 }
 SET_VARIANTS = ["SET statement_timeout TO 1234", "SET work_mem TO '8MB'", "SET search_path TO other",
-                "PREPARE sp1 AS SELECT 1", "SET ROLE other_role", "SET lock_timeout = 77"]
+                "SET lock_timeout = 77", "SET extra_float_digits TO 3"]
+PREP_VARIANTS = ["PREPARE sp1 AS SELECT 1", "PREPARE sp2 (int) AS SELECT $1"]
 STMT_VARIANTS = ['SELECT 1', 'SELECT now()', 'INSERT INTO t VALUES (1)', 'SELECT 1 /*v:rows=3,size=10*/',
                  'UPDATE t SET a = 1']
 COPY2_VARIANTS = ['COPY t FROM STDIN{T0}; COPY u TO STDOUT /*v:rows=2*/{T1}',
@@ -39,6 +41,10 @@ def run_scenario(item):
         if ps_cache == 0 and early_variant != 'close_panic':
             early_variant = 'close_panic'
     general = {'connect_timeout': 500}
+    kinds_used = {s2.get('k') for s2 in steps if s2['op'] == 'send'}
+    user_extra = {}
+    if 'slow' in kinds_used:
+        user_extra['statement_timeout'] = 400
     if 'idle_tx_timeout' in ops:
         general['idle_client_in_transaction_timeout'] = 1500
     obs = []          # client-side observations / anomalies
@@ -46,7 +52,7 @@ def run_scenario(item):
                                                  'early': early_variant}}
     with World('pc') as w:
         be = w.backend('p0', role='primary')
-        pool = simple_pool([['127.0.0.1', be.port, 'primary']], pool_size=pool_size, mode=mode)
+        pool = simple_pool([['127.0.0.1', be.port, 'primary']], pool_size=pool_size, mode=mode, user=user_extra)
         if ps_cache:
             pool['prepared_statements_cache_size'] = ps_cache
         w.start(general=general, pools={'db': pool})
@@ -93,7 +99,15 @@ def run_scenario(item):
                     if n2 in outstanding and pcv in ('idle', 'intx'):
                         read_pending(n2)
                     elif n2 in outstanding and pcv == 'gone':
+                        # the pooler ended this client (e.g. statement timeout): read until it closes
                         outstanding.pop(n2, None)
+                        w.log.add(ev='closing', client=n2)
+                        rep = clients[n2].read_reply(timeout=4.0, stop=())
+                        if rep.end == 'TIMEOUT':
+                            note('client_not_ended', client=n2, got=rep.brief())
+                        clients[n2].close()
+                        # let the late reply of the abandoned statement arrive at (or be discarded with) the connection
+                        time.sleep(1.3)
                 prev_state = st
                 continue
             if op == 'connect':
@@ -111,6 +125,9 @@ def run_scenario(item):
                 else:
                     if k == 'set':
                         sql = rng.choice(SET_VARIANTS) + ' ' + c.tag()
+                        serials = [c.serial]
+                    elif k == 'prep':
+                        sql = rng.choice(PREP_VARIANTS) + ' ' + c.tag()
                         serials = [c.serial]
                     elif k == 'stmt':
                         sql = rng.choice(STMT_VARIANTS) + ' ' + c.tag()
